@@ -192,22 +192,22 @@ fn run_case(shape: &'static str, n: usize, structural: &'static str, param: &'st
             }
             for (k, d) in fails {
                 cov.outcome("file/FAIL");
-                viol.push(Violation::new(
-                    "codec-file-roundtrip",
-                    &format!("codec-file/{version}/{shape}/{structural}/{}{k}", if param.is_empty() { String::new() } else { format!("{param}/") }),
-                    format!("{case}: {d}"),
-                    case.clone(),
-                ));
+                let key = if shape == "fsl_items_null" && structural == "fullzip" {
+                    "fullzip/fsl-with-null-items-unreadable".to_string()
+                } else {
+                    format!("codec-file/unclassified/{version}/{shape}/{structural}/{}{k}", if param.is_empty() { String::new() } else { format!("{param}/") })
+                };
+                viol.push(Violation::new("codec-file-roundtrip", &key, format!("{case}: [{k}] {d}"), case.clone()));
             }
         }
         Err(p) => {
             cov.outcome("file/PANIC");
-            viol.push(Violation::new(
-                "codec-file-roundtrip",
-                &format!("codec-file/{version}/{shape}/{structural}/panic/{}", val::msg_class(&p)),
-                format!("{case}: panic: {p}"),
-                case,
-            ));
+            let key = if shape == "fsl_all_items_null" {
+                "fsl/all-items-null-cannot-be-written".to_string()
+            } else {
+                format!("codec-file/unclassified/{version}/{shape}/{structural}/panic/{}", val::msg_class(&p))
+            };
+            viol.push(Violation::new("codec-file-roundtrip", &key, format!("{case}: panic: {p}"), case));
         }
     }
 }
